@@ -50,6 +50,10 @@ def _c04_sweep(n, k):
 PROPS['C04']['level'] = 'fault_enumeration'
 PROPS['C04']['legs']['quick'].append(dict(scenario='C04', runs=0, budget=300, tag='sweep', sweep=_c04_sweep(4, 2)))
 PROPS['C04']['legs']['thorough'].append(dict(scenario='C04', runs=0, budget=3000, tag='sweep', sweep=_c04_sweep(6, 3)))
+_C09_SWEEP = 'for each base workload (one seed: configuration, workload, schedule): every crash kind {Close, Abort, transport read error, transport write error, conn.Close, two concurrent Close, Close after Abort} x crashed side {A, B} x every wire event (packet emission) of the fault-free reference pass of that seed as the crash point'
+PROPS['C09']['legs']['quick'].append(dict(scenario='C09', runs=32, budget=300, tag='sweep', params={'crash_sweep': 1}, crash_sweep=_C09_SWEEP))
+PROPS['C09']['legs']['thorough'].append(dict(scenario='C09', runs=1600, budget=3000, tag='sweep', params={'crash_sweep': 1}, crash_sweep=_C09_SWEEP))
+PROPS['C09']['level'] = 'fault_enumeration'
 add_leg('C12', 'C12g', 400, 60, 20000, 600)
 add_leg('C11', 'C11h', 320, 60, 20000, 1500)
 # the race-detector build also runs the teardown, shutdown, reset, transfer and adversary scenarios (their white-box
@@ -119,8 +123,8 @@ MANIFEST_TEXT.update({
                 text='Seeded exploration: Shutdown is called immediately, mid-transfer or after the writers finished, one-sided or crossed with offsets, under loss/dup/reorder and partitions of up to 400 s; when it returns nil every accepted write must have been read by the peer, writes invoked in a non-established state must be rejected without trace, both ends must reach closed (the second at the latest when its transport closes) and then stay silent for 10 virtual minutes. Evidence, not proof.',
                 note=SIM_NOTE),
     'C09': dict(design_ref='DESIGN.md §5 C09',
-                technique='deterministic simulation: crash-point injection (Close / Abort / transport read or write error / conn.Close / concurrent Close) at a wire event or scheduling step drawn from a fault-free reference pass of the same seed',
-                text='Two-pass seeded exploration: a fault-free pass of the seed numbers its wire events and scheduling steps, the second pass injects one teardown fault at a drawn event or step into handshake, bulk transfer (blocked readers, blocking writers, read deadlines, short reads), stream resets or graceful shutdown in progress; every call blocked on the endpoint must return within the bound, the association must be closed, its task census empty, repeated Close harmless, a delivered ABORT must close the peer with the cause, and nothing may run or be written during 10 idle minutes. Evidence, not proof.',
+                technique='deterministic simulation: crash-point injection (Close / Abort / transport read or write error / conn.Close / concurrent Close); complete enumeration of crash kind x side x wire event of the fault-free reference pass for a set of base workloads, plus seeded crash points at wire-event or scheduling-step granularity',
+                text='Two-pass seeded exploration: a fault-free pass of the seed numbers its wire events and scheduling steps, the second pass injects one teardown fault at a drawn event or step into handshake, bulk transfer (blocked readers, blocking writers, read deadlines, short reads), stream resets or graceful shutdown in progress; every call blocked on the endpoint must return within the bound, the association must be closed, its task census empty, repeated Close harmless, a delivered ABORT must close the peer with the cause, and nothing may run or be written during 10 idle minutes. Systematic leg (this is what the level refers to): for each of a number of base workloads (quick 32, thorough 1600 seeds) the crash is placed, in turn, at every wire event of the fault-free pass of that seed, for each of the 7 crash kinds and both sides (about 1000 runs per base workload); the evidence lists the number of base workloads, the size of the enumerated space, the cells executed and exhaustive=true only when they are equal. Crash points at scheduling-step granularity and the base workloads themselves are seeded sampling. Evidence, not proof.',
                 note=SIM_NOTE),
     'C14': dict(design_ref='DESIGN.md §5 C14',
                 technique='deterministic simulation: close / re-open cycles of stream identifiers under faults, EOF-after-data oracle per incarnation, wire check of fresh sequence numbers',
